@@ -1,5 +1,6 @@
 import EmmyVerif.Model.TyCheck
 import EmmyVerif.Model.TyRender
+import EmmyVerif.Model.TyWalk
 /-!
 # C12 — Indexing and semantic queries never crash (the recursion guards)
 
@@ -132,5 +133,90 @@ theorem C12_cyclic_union_alias_answered :
 for every type and level -/
 theorem C12_humanizer_guard (d lv : Nat) (t : Ty) : toCst d 0 lv t = none := by
   cases d <;> simp [toCst]
+
+/-! ## depth-guarded walks over alias-resolved union members (`remove_type`, `intersect_type`,
+`narrow_down_type`, `has_non_callable_member`; fixes b846728, a50f60e) -/
+
+/-- with no depth left the walk answers at once, whatever the aliases look like -/
+theorem C12_walk_guard_stops (e : Env) (t : Ty) :
+    removeNil e 0 t = some t ∧ hasNonCallable e 0 t = false := by
+  simp [removeNil, hasNonCallable]
+
+/-- `1 + b + b² + … + b^d` -/
+def geom (b : Nat) : Nat → Nat
+  | 0 => 1
+  | d + 1 => 1 + b * geom b d
+
+theorem sum_map_le {α : Type} (f : α → Nat) (l : List α) (c : Nat) (h : ∀ x ∈ l, f x ≤ c) :
+    (l.map f).sum ≤ l.length * c := by
+  induction l with
+  | nil => simp
+  | cons x xs ih =>
+    have hx := h x (List.mem_cons_self)
+    have := ih (fun y hy => h y (List.mem_cons_of_mem _ hy))
+    simp only [List.map_cons, List.sum_cons, List.length_cons]
+    rw [Nat.add_mul]
+    omega
+
+/-- **work bound.** For every declaration graph (cyclic aliases included) in which an alias-resolved
+type has at most `b` union members, a walk started with depth `d` makes at most `1 + b + … + b^d`
+calls: the depth guard bounds the work, not only the stack. -/
+theorem C12_walk_work_bound (e : Env) (b : Nat)
+    (hb : ∀ t ms, walkMembers e t = some ms → ms.length ≤ b) :
+    ∀ (d : Nat) (t : Ty), walkCalls e d t ≤ geom b d := by
+  intro d
+  induction d with
+  | zero => intro t; simp [walkCalls, geom]
+  | succ d ih =>
+    intro t
+    simp only [walkCalls, geom]
+    cases hm : walkMembers e t with
+    | none => simp
+    | some ms =>
+      simp only
+      have h1 := sum_map_le (walkCalls e d) ms (geom b d) (fun x _ => ih x)
+      have h2 := hb t ms hm
+      have : ms.length * geom b d ≤ b * geom b d := Nat.mul_le_mul_right _ h2
+      omega
+
+/-- `---@alias U1 U2|string`, `---@alias U2 U1|number`: the walks end (they used to overflow the stack) -/
+theorem C12_mutual_union_alias_walks_end :
+    let e : Env := { decls := [
+      { name := "U1".toList, kind := .alias (some (Ty.mk [.ref "U2".toList, .prim .string])), supers := [] },
+      { name := "U2".toList, kind := .alias (some (Ty.mk [.ref "U1".toList, .prim .number])), supers := [] }] }
+    (removeNil e maxWalkDepth (.ref "U1".toList)).isSome = true ∧
+      hasNonCallable e maxWalkDepth (.ref "U1".toList) = true ∧
+      walkCalls e maxWalkDepth (.ref "U1".toList) = 21 := by
+  decide +kernel
+
+/-! ## generic aliases (fixes fd7041e, e03574d) -/
+
+/-- an alias that is already being instantiated further up is not unfolded again (`check_recursion`
+over the inherited alias chain) — for every set of alias declarations -/
+theorem C12_unfold_reentry_stops (decls : List GAlias) (f : Nat) (chain : List Name) (n : Name)
+    (h : n ∈ chain) : unfoldChain decls (f + 1) chain n = [] := by
+  simp [unfoldChain, h]
+
+/-- `---@alias M1<T> M2<T>|T`, `---@alias M2<T> M1<T[]>|nil`: each alias is unfolded once -/
+theorem C12_mutual_generic_alias_unfolds_once :
+    unfoldChain [{ name := "M1".toList, mentions := ["M2".toList] },
+                 { name := "M2".toList, mentions := ["M1".toList] }] 1000 [] "M1".toList
+      = ["M1".toList, "M2".toList] := by
+  decide +kernel
+
+/-- **growing generic alias.** `infer_generic_member` unfolds `GA<T> = GA<T[]>|nil` at most
+`32 - level` more times, whatever fuel the model is given and however large the instance has become -/
+theorem C12_member_unfold_bound : ∀ (f level size : Nat), memberUnfold f level size ≤ maxUnfoldLevel - level := by
+  intro f
+  induction f with
+  | zero => intro level size; simp [memberUnfold]
+  | succ f ih =>
+    intro level size
+    simp only [memberUnfold]
+    split
+    · omega
+    · have := ih (level + 1) (size + 1)
+      unfold maxUnfoldLevel at *
+      omega
 
 end TyM
